@@ -2,6 +2,7 @@ package generator
 
 import (
 	"fmt"
+	"go/constant"
 	"go/types"
 	"regexp"
 	"sort"
@@ -149,6 +150,11 @@ func ReplaceEnums(ana *analysis.Analysis, content string) string {
 			panic(fmt.Sprintf("enum placeholder %s: %s is not an enum type of the package", s, typeName))
 		}
 		enumValue := enum.Get(varName)
-		return fmt.Sprintf("%s /* %s.%s */", enumValue.Const.Val().ExactString(), typeName, varName)
+		literal := enumValue.Const.Val().ExactString()
+		if val := enumValue.Const.Val(); val.Kind() == constant.String {
+			// SQL string literals use single quotes
+			literal = "'" + strings.ReplaceAll(constant.StringVal(val), "'", "''") + "'"
+		}
+		return fmt.Sprintf("%s /* %s.%s */", literal, typeName, varName)
 	})
 }
